@@ -81,11 +81,6 @@ theorem get_add (P : Pts) (x : Var) (c : Cell) (z : Var) :
 theorem overlaps_nil (t : List Obj) : overlaps ([] : List Obj) t = false := by
   simp [overlaps]
 
-def linkCell (tgt a b : List Obj) (c : Cell) : Cell :=
-  { top := c.top
-    kids := union c.kids (cond (overlaps c.top tgt) a)
-    deep := union (union c.deep (cond (overlaps c.top tgt) b)) (cond (overlaps (c.kids ++ c.deep) tgt) (a ++ b)) }
-
 theorem linkCell_empty (tgt a b : List Obj) : linkCell tgt a b {} = {} := by
   simp [linkCell, overlaps_nil, cond, union]
 
@@ -346,6 +341,92 @@ theorem passClosed_sound {S : List Summary} {p : List Stmt} {A : Pts} (h : passC
     ∀ s, s ∈ p → Le (step S s A) A := by
   intro s hs
   exact (step_le_pass S s p hs (Le.refl A)).trans (leB_sound h)
+
+theorem cellSub_sound {c d : Cell} (h : cellSub c d = true) : CellLe c d := by
+  unfold cellSub at h
+  rw [Bool.and_eq_true, Bool.and_eq_true] at h
+  exact ⟨sub_iff.1 h.1.1, sub_iff.1 h.1.2, sub_iff.1 h.2⟩
+
+theorem add_le {Q A : Pts} {c : Cell} (x : Var) (hQ : Le Q A) (hc : CellLe c (Pts.get A x)) : Le (Pts.add Q x c) A := by
+  intro z
+  rw [get_add]
+  by_cases h : z = x
+  · subst h
+    simp only [if_true]
+    have := hQ z
+    exact ⟨fun o ho => (mem_union.1 ho).elim (fun h => this.1 h) (fun h => hc.1 h),
+           fun o ho => (mem_union.1 ho).elim (fun h => this.2.1 h) (fun h => hc.2.1 h),
+           fun o ho => (mem_union.1 ho).elim (fun h => this.2.2 h) (fun h => hc.2.2 h)⟩
+  · simp only [h, if_false]
+    exact hQ z
+
+theorem get_mem_or_empty (A : Pts) (z : Var) : Pts.get A z ∈ A ∨ Pts.get A z = {} := by
+  by_cases hz : z < A.length
+  · left
+    unfold Pts.get
+    simp [List.getD, List.getElem?_eq_getElem hz]
+  · right
+    exact get_of_length_le A z (Nat.le_of_not_lt hz)
+
+theorem linkClosed_sound {A : Pts} {t a b : List Obj} (h : linkClosed A t a b = true) : Le (link A t a b) A := by
+  intro z
+  rw [get_link]
+  rcases get_mem_or_empty A z with hm | he
+  · unfold linkClosed at h
+    rw [List.all_eq_true] at h
+    exact cellSub_sound (h _ hm)
+  · rw [he, linkCell_empty]
+    exact CellLe.refl _
+
+theorem alias_fold_le {A : Pts} (x : Var) (ys : List Var) (h : ∀ y, y ∈ ys → CellLe (Pts.get A y) (Pts.get A x)) :
+    ∀ {Q : Pts}, Le Q A → Le (ys.foldl (fun Q y => Pts.add Q x (Pts.get A y)) Q) A := by
+  induction ys with
+  | nil => intro Q hQ; exact hQ
+  | cons y ys ih =>
+    intro Q hQ
+    simp only [List.foldl_cons]
+    exact ih (fun y' hy' => h y' (List.mem_cons_of_mem _ hy')) (add_le x hQ (h y List.mem_cons_self))
+
+theorem links_fold_le {A : Pts} (args : List (Option Var)) (ret : Var) (ls : List (Nat × Bool × Src))
+    (h : ∀ l, l ∈ ls → Le (link A (argCell A args l.1).top (cond l.2.1 (sel A args ret l.2.2))
+        (cond (!l.2.1) (sel A args ret l.2.2))) A) :
+    ∀ {Q : Pts}, Le Q A →
+      Le (ls.foldl (fun Q l => link Q (argCell A args l.1).top (cond l.2.1 (sel A args ret l.2.2))
+            (cond (!l.2.1) (sel A args ret l.2.2))) Q) A := by
+  induction ls with
+  | nil => intro Q hQ; exact hQ
+  | cons l ls ih =>
+    intro Q hQ
+    simp only [List.foldl_cons]
+    refine ih (fun l' hl' => h l' (List.mem_cons_of_mem _ hl')) ?_
+    exact (link_mono hQ (fun _ ho => ho) (fun _ ho => ho) (fun _ ho => ho)).trans (h l List.mem_cons_self)
+
+/-- the statement-wise check of a given table establishes closedness -/
+theorem closedStmt_sound (S : List Summary) (s : Stmt) (A : Pts) (h : closedStmt S s A = true) : Le (step S s A) A := by
+  cases s with
+  | param x i => exact add_le x (Le.refl A) (cellSub_sound h)
+  | global x g => exact add_le x (Le.refl A) (cellSub_sound h)
+  | alias x ys =>
+    simp only [closedStmt, List.all_eq_true] at h
+    exact alias_fold_le x ys (fun y hy => cellSub_sound (h y hy)) (Le.refl A)
+  | elem x y => exact add_le x (Le.refl A) (cellSub_sound h)
+  | fresh x => exact add_le x (Le.refl A) (cellSub_sound h)
+  | shallow x ys => exact add_le x (Le.refl A) (cellSub_sound h)
+  | pack x ys => exact add_le x (Le.refl A) (cellSub_sound h)
+  | store x y => exact linkClosed_sound h
+  | write x => exact Le.refl A
+  | gwrite g => exact Le.refl A
+  | call ret f args =>
+    simp only [closedStmt, Bool.and_eq_true, List.all_eq_true] at h
+    simp only [step]
+    exact add_le ret (links_fold_le args ret _ (fun l hl => linkClosed_sound (h.1 l hl)) (Le.refl A)) (cellSub_sound h.2)
+
+theorem closedB_sound {S : List Summary} {p : List Stmt} {A : Pts} (h : closedB S p A = true) :
+    ∀ s, s ∈ p → Le (step S s A) A := by
+  intro s hs
+  unfold closedB at h
+  rw [List.all_eq_true] at h
+  exact closedStmt_sound S s A (h s hs)
 
 theorem nil_le (A : Pts) : Le [] A := by
   intro z
